@@ -1385,6 +1385,11 @@ static void hist_call(hist_t* h, const kv_t* kv, FILE* out, int jobno, int step)
     h->tb.meta.ri = h->tb.meta.wi;
     wuffs_base__token_buffer__compact(&h->tb);
     dp = NULL;
+  } else if (!strcmp(fn, "set_report_metadata") && ifc == IF_IMG) {
+    wuffs_base__image_decoder__set_report_metadata((wuffs_base__image_decoder*)up, (uint32_t)kv_u64(kv, "fourcc", 0), kv_u64(kv, "report", 1) != 0);
+    has_status = false;
+    sp = NULL;
+    dp = NULL;
   } else if (!strcmp(fn, "set_quirk")) {
     uint32_t key = (uint32_t)kv_u64(kv, "key", 0);
     uint64_t val = kv_u64(kv, "val", 1);
